@@ -890,7 +890,8 @@ func (c *Ctx) step(s *State, fr *Frame, in ssa.Instruction) []*State {
 			if v, ok := c.tryVal(s, x.X); ok {
 				if x.IsAddr {
 					fr.src[id.Name] = SrcAddr{P: v, Ty: x.X.Type()}
-				} else {
+				} else if _, isAddr := fr.src[id.Name].(SrcAddr); !isAddr {
+					// (an address-taken variable keeps denoting its cell: a value DebugRef is only a snapshot)
 					fr.src[id.Name] = v
 				}
 			}
@@ -1660,6 +1661,13 @@ func (c *Ctx) iteVal(s *State, cond string, a, b Val) Val {
 	case ArrayV:
 		y := b.(ArrayV)
 		return ArrayV{ite(x.Term, y.Term), x.Ty}
+	case FixedArrV:
+		y := b.(FixedArrV)
+		r := FixedArrV{Ty: x.Ty}
+		for k := range x.E {
+			r.E = append(r.E, c.iteVal(s, cond, x.E[k], y.E[k]))
+		}
+		return r
 	case LocV:
 		switch y := b.(type) {
 		case Scalar:
@@ -1766,8 +1774,17 @@ func (c *Ctx) index(s *State, fr *Frame, x *ssa.Index) {
 	i := c.toIdx(iv)
 	switch bt := x.X.Type().Underlying().(type) {
 	case *types.Array:
-		av := base.(ArrayV)
 		c.oblige(s, "safe:index", c.siteOf(x, "index"), c.inBounds(i, c.ar.idx(bt.Len())), "index in range", x.Pos())
+		if fa, ok := base.(FixedArrV); ok {
+			r := fa.E[len(fa.E)-1]
+			for k := len(fa.E) - 2; k >= 0; k-- {
+				cond := c.bind(s, "arrsel", SBool, fmt.Sprintf("(= %s %s)", i, c.ar.idx(int64(k))))
+				r = c.iteVal(s, cond, fa.E[k], r)
+			}
+			fr.regs[x] = r
+			return
+		}
+		av := base.(ArrayV)
 		sort, _ := c.ar.sortOfScalar(bt.Elem())
 		fr.regs[x] = Scalar{fmt.Sprintf("(select %s %s)", av.Term, i), sort, x.Type()}
 	case *types.Basic: // string index
@@ -1876,6 +1893,9 @@ func (c *Ctx) zeroFillArray(s *State, arr string, el types.Type) {
 		hs := c.elemHeapSort(cp.S)
 		h := c.heapTerm(s, name, hs)
 		z := c.zeroComp(el, cp)
+		if z == "rnil" {
+			z = "(mkobj 0)" // cvc5 wants a value, not a defined constant, in a constant array
+		}
 		c.setHeap(s, name, hs, fmt.Sprintf("(store %s %s ((as const (Array %s %s)) %s))", h, arr, c.ar.idxSort(), cp.S, z))
 	}
 }
